@@ -20,6 +20,19 @@ import contextlib
 
 def augment_exception_message_and_reraise(exception, message):
   """Reraises `exception`, appending `message` to its string representation."""
+  try:
+    proxy = _make_exception_proxy(exception, message)
+  except Exception:  # pylint: disable=broad-except
+    # Building the proxy runs code of the exception's class (`__init_subclass__`,
+    # `__new__`); if that fails, the original exception is what must surface.
+    proxy = None
+  if proxy is None:
+    raise exception
+  raise proxy.with_traceback(exception.__traceback__)
+
+
+def _make_exception_proxy(exception, message):
+  """Returns a proxy for `exception` with `message` appended, or `None`."""
 
   class ExceptionProxy(type(exception)):
     """Acts as a proxy for an exception with an augmented message."""
@@ -56,16 +69,15 @@ def augment_exception_message_and_reraise(exception, message):
       for base in type(exception).__mro__[1:]
       if '__new__' in vars(base) and base is not object
   ]
-  proxy = None
   for constructor in constructors:
     try:
       proxy = constructor()
-      break
-    except TypeError:
+    except Exception:  # pylint: disable=broad-except
       continue
-  if proxy is None:
-    raise exception
-  raise proxy.with_traceback(exception.__traceback__)
+    # A `__new__` acting as a factory may return an instance of another class.
+    if isinstance(proxy, ExceptionProxy):
+      return proxy
+  return None
 
 
 def _format_location(location):
